@@ -175,21 +175,61 @@ def gen_generic_matrix(rng, n):
 # --------------------------------------------------------------------------
 # NJ / UPGMA on the real implementation
 # --------------------------------------------------------------------------
-def _impl_nj(names, d, how="nj"):
+NJ_FUNCS = ["nj", "gnj", "dm.quick_tree", "app.quick_tree"]
+NJ_INPUTS = ["dict", "dm_dict", "dm_array", "dm_take", "dm_drop"]
+UPGMA_INPUTS = ["dict", "darr_array", "dm_dict", "dm_array", "dm_take", "dm_drop"]
+_OLD_HOW = {"nj": "nj|dict", "gnj": "gnj|dict", "dm.quick_tree": "dm.quick_tree|dm_dict", "app.quick_tree": "app.quick_tree|dm_dict"}
+
+
+def _make_input(kind, order, d):
+    """the distances `d` in one of the accepted input types, rows in the (generally NOT sorted) order `order`"""
+    import numpy
     from cogent3.evolve.fast_distance import DistanceMatrix
+    from cogent3.util.dict_array import DictArray
+
+    order = list(order)
+    full = {(a, b): float(d[(a, b)]) for a in order for b in order if a != b}
+    if kind == "dict":
+        return full
+    if kind == "dm_dict":
+        return DistanceMatrix(full)
+    arr = numpy.array([[0.0 if a == b else float(d[(a, b)]) for b in order] for a in order], dtype=float)
+    if kind == "darr_array":
+        return DictArray.from_array_names(arr, order, order)
+    if kind == "dm_array":
+        return DistanceMatrix.from_array_names(arr, order)
+    if kind == "dm_drop":
+        return DistanceMatrix.from_array_names(arr, order).drop_invalid()
+    if kind == "dm_take":
+        # one extra taxon in the middle of the rows, removed again with take_dists (names given in reverse order)
+        k = len(order) // 2
+        big = order[:k] + ["zz_extra"] + order[k:]
+        arr2 = numpy.ones((len(big), len(big)), dtype=float)
+        idx = [i for i, n in enumerate(big) if n != "zz_extra"]
+        for i, a in zip(idx, order):
+            for j, b in zip(idx, order):
+                arr2[i, j] = arr[order.index(a), order.index(b)]
+        numpy.fill_diagonal(arr2, 0.0)
+        return DistanceMatrix.from_array_names(arr2, big).take_dists(list(reversed(order)))
+    raise ValueError(kind)
+
+
+def _impl_nj(names, d, how="nj|dict", order=None):
     from cogent3.phylo.nj import gnj, nj
 
-    full = {(a, b): float(d[(a, b)]) for a in names for b in names if a != b}
-    if how == "nj":
-        t = nj(full, show_progress=False)
-    elif how == "gnj":
-        ((score, t),) = gnj(full, keep=1, show_progress=False)
-    elif how == "dm.quick_tree":
-        t = DistanceMatrix(full).quick_tree()
-    elif how == "app.quick_tree":
+    how = _OLD_HOW.get(how, how)
+    func, kind = how.split("|")
+    inp = _make_input(kind, order or names, d)
+    if func == "nj":
+        t = nj(inp, show_progress=False)
+    elif func == "gnj":
+        ((score, t),) = gnj(inp, keep=1, show_progress=False)
+    elif func == "dm.quick_tree":
+        t = inp.quick_tree()
+    elif func == "app.quick_tree":
         from cogent3 import get_app
 
-        t = get_app("quick_tree")(DistanceMatrix(full))
+        t = get_app("quick_tree")(inp)
         if not hasattr(t, "children"):
             raise RuntimeError(f"quick_tree app returned {t!r}")
     else:
@@ -197,11 +237,10 @@ def _impl_nj(names, d, how="nj"):
     return U.from_cogent(t)
 
 
-def _impl_upgma(names, d):
+def _impl_upgma(names, d, kind="dict", order=None):
     from cogent3.cluster.UPGMA import upgma
 
-    full = {(a, b): float(d[(a, b)]) for a in names for b in names if a != b}
-    return U.from_cogent(upgma(full))
+    return U.from_cogent(upgma(_make_input(kind, order or names, d)))
 
 
 class _JoinRecorder:
@@ -542,15 +581,69 @@ def _check_alignment(out, moltype, canon, seqs, calcs, rng=None, relations=True)
         out["samples"].append(dict(moltype=moltype, seqs=seqs))
 
 
-def _check_nj(out, names, tree, how, binary):
+def _check_apps(out, moltype, seqs, calcs):
+    """the same estimators reached through the APPS, incl. an alignment of the OTHER nucleic moltype given to a
+    dna-/rna-typed app (the app converts T<->U): every cell vs the published formula on the T/U-normalised pair"""
+    from cogent3 import get_app
+
+    names = [n for n, _ in seqs]
+    n = len(seqs)
+    aln = _make_aln(seqs, moltype)
+    for calc in calcs:
+        for app_mt in ("dna", "rna"):
+            out["evaluations"] += 1
+            route = f"{moltype}->{app_mt}"
+            inp = dict(via="fast_slow_dist", moltype=moltype, app_moltype=app_mt, seqs=[list(p) for p in seqs], calc=calc)
+            canon = "ACGT" if app_mt == "dna" else "ACGU"
+            norm = [(nm, sq.replace("U", "T") if app_mt == "dna" else sq.replace("T", "U")) for nm, sq in seqs]
+            try:
+                res = get_app("fast_slow_dist", fast_calc=calc, moltype=app_mt)(aln)
+                arr = res.array
+                idx = {nm: i for i, nm in enumerate(res.names)}
+                mat = [[float(arr[idx[a], idx[b]]) for b in names] for a in names]
+            except Exception as e:
+                _spec_fail(out, f"fast_slow_dist({calc}, {app_mt}) did not return a distance matrix", inp, "a distance matrix", repr(e)[:200], f"app:fast_slow_dist:{calc}:{route}:raises")
+                continue
+            exp = _oracle_matrix(calc, canon, norm)
+            delicate = any(
+                (mg := U.validity_margin(calc, norm[x][1], norm[y][1], canon)) is not None and mg < 1e-9
+                for x in range(n) for y in range(x + 1, n)
+            )
+            if delicate:
+                bump(out, "oracle", "delicate-app-skipped")
+                continue
+            bad = None
+            for a in range(n):
+                for b in range(n):
+                    if a == b:
+                        continue
+                    g, e = mat[a][b], exp[a][b]
+                    if e == U.UNDEF:
+                        continue
+                    if e == U.INVALID:
+                        ok = math.isnan(g) or (g == 0 and all(x not in canon and y not in canon for x, y in zip(norm[a][1], norm[b][1])))
+                    else:
+                        ok = _same_float(g, e)
+                    if not ok and bad is None:
+                        bad = (a, b, e, g)
+            if bad:
+                _spec_fail(out, f"fast_slow_dist app ({calc}, app moltype {app_mt}, alignment {moltype}): distance differs from the published formula on the T/U-normalised pair",
+                           dict(inp, cell=[bad[0], bad[1]]), bad[2], bad[3], f"app:fast_slow_dist:{calc}:{route}:value")
+            else:
+                out["nontrivial"].add(("app", route, tuple(seqs), calc))
+            bump(out, "app_route", route)
+
+
+def _check_nj(out, names, tree, how, binary, order=None):
+    how = _OLD_HOW.get(how, how)
     """real NJ on the additive matrix of `tree` must return `tree`"""
     out["evaluations"] += 1
     d = U.tip_dists(tree)
-    inp = dict(algo="nj", how=how, names=names, tree=_tree_json(tree))
+    inp = dict(algo="nj", how=how, names=names, order=order, tree=_tree_json(tree))
     shape = "binary" if binary else "multifurcating"
     try:
         with _JoinRecorder() as rec:
-            got = _impl_nj(names, d, how)
+            got = _impl_nj(names, d, how, order)
     except Exception as e:
         _spec_fail(out, f"{how} raised {type(e).__name__} on an additive matrix", inp, "the generating tree", repr(e), f"nj:{how}:raises:{type(e).__name__}")
         return
@@ -584,33 +677,35 @@ def _check_nj(out, names, tree, how, binary):
             bump(out, "nj_joins_all_cherries", len(rec.joins))
     out["nontrivial"].add(("nj", how, _tree_key(tree)))
     bump(out, "nj_spec", f"{shape}:{len(names)}")
+    bump(out, "nj_input", how)
 
 
-def _check_upgma(out, names, tree):
+def _check_upgma(out, names, tree, kind="dict", order=None):
     out["evaluations"] += 1
     d = U.tip_dists(tree)
-    inp = dict(algo="upgma", names=names, tree=_tree_json(tree))
+    inp = dict(algo="upgma", how=kind, names=names, order=order, tree=_tree_json(tree))
     try:
-        got = _impl_upgma(names, d)
+        got = _impl_upgma(names, d, kind, order)
     except Exception as e:
-        _spec_fail(out, f"upgma raised {type(e).__name__} on an ultrametric matrix", inp, "the generating tree", repr(e), f"upgma:raises:{type(e).__name__}")
+        _spec_fail(out, f"upgma raised {type(e).__name__} on an ultrametric matrix", inp, "the generating tree", repr(e), f"upgma:{kind}:raises:{type(e).__name__}")
         return
     if sorted(U.tip_names(got)) != sorted(names):
-        _spec_fail(out, "upgma: tips differ", inp, sorted(names), sorted(U.tip_names(got)), "upgma:tips")
+        _spec_fail(out, "upgma: tips differ", inp, sorted(names), sorted(U.tip_names(got)), f"upgma:{kind}:tips")
         return
     why = U.dict_close(d, U.tip_dists(got), TREE_TOL)
     if why:
-        _spec_fail(out, "upgma: path lengths of the result differ from the ultrametric matrix", inp, "d(x,y) for all tips", why, "upgma:dists")
+        _spec_fail(out, "upgma: path lengths of the result differ from the ultrametric matrix", inp, "d(x,y) for all tips", why, f"upgma:{kind}:dists")
         return
     why = U.dict_close(U.rooted_clades(tree, 0), U.rooted_clades(got, TREE_TOL), TREE_TOL)
     if why:
-        _spec_fail(out, "upgma: clades / branch lengths differ from the generating tree", inp, "clades of the generating tree", why, "upgma:clades")
+        _spec_fail(out, "upgma: clades / branch lengths differ from the generating tree", inp, "clades of the generating tree", why, f"upgma:{kind}:clades")
         return
     neg = [l for l in U.rooted_clades(got, -1).values() if l < 0]
     if neg:
-        _spec_fail(out, "upgma: negative branch length", inp, ">= 0", neg[:3], "upgma:negative")
-    out["nontrivial"].add(("upgma", _tree_key(tree)))
+        _spec_fail(out, "upgma: negative branch length", inp, ">= 0", neg[:3], f"upgma:{kind}:negative")
+    out["nontrivial"].add(("upgma", kind, _tree_key(tree)))
     bump(out, "upgma_spec", len(names))
+    bump(out, "upgma_input", kind)
 
 
 def _tree_json(t):
@@ -662,16 +757,23 @@ def spec_check(ctx, budget):
         moltype, canon, seqs = gen_alignment(rng)
         calcs = CALCS if k % 2 == 0 else rng.sample(CALCS, 3)
         _check_alignment(out, moltype, canon, seqs, calcs, rng)
+        _check_apps(out, moltype, seqs, rng.sample(CALCS[:6], 2))
+    for mt, sq in (("rna", [("a", "ACGUACGUACUUACGUAAUU"), ("b", "ACGUACGAACUCACGUAAUU"), ("c", "ACGAACGUACUUACGUCAUG")]),
+                   ("dna", [("a", "ACGTACGTACTTACGTAATT"), ("b", "ACGTACGAACTCACGTAATT"), ("c", "ACGAACGTACTTACGTCATG")])):
+        _check_apps(out, mt, sq, CALCS[:6])
     # --- NJ
-    hows = ["nj", "gnj", "dm.quick_tree", "app.quick_tree"]
+    # every function x every accepted input type, rows in a shuffled (NOT sorted) order
+    combos = [f"{f}|{k}" for f in NJ_FUNCS for k in NJ_INPUTS if not (f in ("dm.quick_tree", "app.quick_tree") and k == "dict")]
     for k in range(120 * budget):
         n = rng.choice([3, 4, 4, 5, 5, 6, 7, 8, 9, 10, 12, 14, 16, 20, 25])
         lab = _names(n)
         names = lab[:]
         rng.shuffle(lab)
+        order = names[:]
+        rng.shuffle(order)
         multif = rng.random() < 0.2
         t = U.gen_additive_tree(rng, lab, multifurc=multif)
-        _check_nj(out, names, t, hows[k % 4] if k % 3 else "nj", _is_binary(t))
+        _check_nj(out, names, t, combos[k % len(combos)], _is_binary(t), order)
     # exhaustive small: every labelled binary topology on 4 and 5 tips with unit-ish lengths is covered by the
     # random-order generator above only statistically; add the 3 quartets x 2 length patterns explicitly
     for perm in (["t00", "t01", "t02", "t03"], ["t00", "t02", "t01", "t03"], ["t00", "t03", "t01", "t02"]):
@@ -680,14 +782,22 @@ def spec_check(ctx, budget):
             l = [Fraction(x, U.UNIT) for x in lens]
             t = ("node", [(l[4], ("node", [(l[0], ("tip", a)), (l[1], ("tip", b))])), (l[2], ("tip", c)), (l[3], ("tip", d))])
             _check_nj(out, sorted(perm), t, "nj", True)
-    # --- UPGMA
+    # --- UPGMA: every accepted input type, rows in a shuffled (NOT sorted) order
     for k in range(120 * budget):
         n = rng.choice([2, 3, 4, 4, 5, 5, 6, 7, 8, 9, 10, 12, 14, 16, 20, 25])
         lab = _names(n)
         names = lab[:]
         rng.shuffle(lab)
+        order = names[:]
+        rng.shuffle(order)
         t = U.gen_ultrametric_tree(rng, lab, multifurc=rng.random() < 0.5)
-        _check_upgma(out, names, t)
+        _check_upgma(out, names, t, UPGMA_INPUTS[k % len(UPGMA_INPUTS)], order)
+    # the coordinator's 5-tip example: names e,c,a,d,b in that row order
+    t5 = ("node", [(Fraction(2), ("node", [(Fraction(1), ("tip", "a")), (Fraction(1), ("tip", "b"))])),
+                   (Fraction(3, 2), ("node", [(Fraction(3, 2), ("tip", "c")),
+                                              (Fraction(1), ("node", [(Fraction(1, 2), ("tip", "d")), (Fraction(1, 2), ("tip", "e"))]))]))])
+    for kind in UPGMA_INPUTS:
+        _check_upgma(out, ["a", "b", "c", "d", "e"], t5, kind, ["e", "c", "a", "d", "b"])
     return out
 
 
@@ -712,9 +822,11 @@ def _replay_input(inp):
     out = new_outcome()
     if inp.get("algo") == "nj":
         t = _tree_from_json(inp["tree"])
-        _check_nj(out, inp["names"], t, inp.get("how", "nj"), _is_binary(t))
+        _check_nj(out, inp["names"], t, inp.get("how", "nj"), _is_binary(t), inp.get("order"))
+    elif inp.get("via") == "fast_slow_dist":
+        _check_apps(out, inp["moltype"], [tuple(p) for p in inp["seqs"]], [inp["calc"]])
     elif inp.get("algo") == "upgma":
-        _check_upgma(out, inp["names"], _tree_from_json(inp["tree"]))
+        _check_upgma(out, inp["names"], _tree_from_json(inp["tree"]), inp.get("how", "dict"), inp.get("order"))
     else:
         import random
 
